@@ -55,6 +55,10 @@ type SAct struct {
 	// released from this yield point, and commits a moment later: whatever the loop reads before it gets the
 	// lock itself (env.Info, earlier transaction ids) is stale by the time its own transaction starts.
 	Held bool `json:"held,omitempty"`
+	// BetweenHeld (deliver, shadow mode): the entries for keys written by the last held application
+	// transaction carry a time 1 ms after that transaction started to hold the lock (the transaction
+	// committed at least 1 ms later still): the application's write must win against them
+	BetweenHeld bool `json:"between_held,omitempty"`
 }
 
 type LoopCase struct {
@@ -106,6 +110,7 @@ type loopStats struct {
 	appBetween   bool // an application commit fell between two LS transactions (not at sync.iter / before-sleep)
 	mergeAfter   bool // a merge followed such a commit
 	excludedF9   int
+	betweenHeld  int // peer entries stamped between the start and the commit of a held application transaction
 	held         int // application transactions that held the write lock while the loop ran on
 	txnIDChecked int // entries whose header transaction id was checked after Lightning Stream (re)wrote them
 	lsEmptyApp   int
@@ -116,7 +121,10 @@ type loopStats struct {
 
 type peerSnap struct {
 	name string
-	ents []SPeer
+	ents []SPeer // as published
+	// model: the same entries with the timestamps the reference model uses for them (the model's clock for
+	// capture passes is a sequence number, not the wall clock)
+	model []SPeer
 }
 
 func peerBlob(native bool, ents []SPeer) []byte {
@@ -201,7 +209,8 @@ func runLoopCase(c LoopCase, o *vcore.Obs) (*loopStats, error) {
 	mir := model.NewMirror()
 	touchedKeys := map[string]bool{} // keys the application ever wrote (shadow mode)
 	nowSeq := uint64(0)
-	nextNow := func() uint64 { nowSeq++; return 2_000_000_000_000_000_000 + nowSeq }
+	// (model stamps of capture passes are even; an odd one lies between two passes, see putPeer)
+	nextNow := func() uint64 { nowSeq += 2; return 2_000_000_000_000_000_000 + nowSeq }
 	local := map[string]map[string]Ver{}     // native mode: last application commit per key
 	merged := map[string]map[string]VerSet{} // peer versions merged so far
 	addMerged := func(ents []SPeer) {
@@ -478,24 +487,43 @@ func runLoopCase(c LoopCase, o *vcore.Obs) (*loopStats, error) {
 	}
 	peerSeq := 0
 	peerClock := time.Date(2026, 3, 1, 0, 0, 0, 0, time.UTC)
-	putPeer := func(ents []SPeer) *peerSnap {
+	// shadow mode: the last application transaction that was held open while the loop ran on - when it
+	// started to hold the lock (wall clock, and position in the model's sequence of capture passes), and
+	// which keys it wrote
+	var heldStart time.Time
+	heldSeq := uint64(0)
+	heldKeys := map[string]bool{}
+	putPeer := func(ents []SPeer, betweenHeld bool) *peerSnap {
 		peerSeq++
 		peerClock = peerClock.Add(time.Second)
+		mod := ents
 		if !c.Native {
 			// shadow mode: remote stamps are unique per snapshot (ties are decided by C01/C02, not here)
 			cp := append([]SPeer(nil), ents...)
+			mod = append([]SPeer(nil), ents...)
 			for i := range cp {
+				id := fleetDBIs[cp[i].DBI%len(fleetDBIs)] + "/" + string(fleetKeys[cp[i].Key%len(fleetKeys)])
+				if betweenHeld && !heldStart.IsZero() && heldKeys[id] {
+					// a peer wrote this key 1 ms after the application's transaction had started to hold the write
+					// lock, i.e. at least 1 ms BEFORE that transaction committed (it held the lock for 2 ms): later
+					// than every capture pass before that transaction, earlier than every pass that can see it
+					cp[i].TS = uint64(heldStart.Add(time.Millisecond).UnixNano())
+					mod[i].TS = 2_000_000_000_000_000_000 + heldSeq + 1
+					st.betweenHeld++
+					continue
+				}
 				cp[i].TS = 1_000_000_000_000_000_000 + uint64(peerSeq)*100 + cp[i].TS%100
+				mod[i].TS = cp[i].TS
 			}
 			ents = cp
 		}
 		name := snapshot.Name(DBName, "peer", "GX", peerClock)
 		b.Put(name, peerBlob(c.Native, ents))
-		return &peerSnap{name: name, ents: ents}
+		return &peerSnap{name: name, ents: ents, model: mod}
 	}
 	var pending, loading *peerSnap
 	if len(c.PeerAtStart) > 0 {
-		pending = putPeer(c.PeerAtStart)
+		pending = putPeer(c.PeerAtStart, false)
 	}
 
 	ownPhase := false // the second life is still waiting for its own snapshot
@@ -576,14 +604,26 @@ func runLoopCase(c LoopCase, o *vcore.Obs) (*loopStats, error) {
 		case "sync.before-load":
 			loading, pending = pending, nil
 		case "load.after-txn":
+			if os.Getenv("VERIF_TRACE") != "" && loading != nil {
+				fmt.Printf("TRACE merging %v heldStart=%d\n", loading.ents, heldStart.UnixNano())
+				if dump, err := lm.DumpEnv(env.Env); err == nil {
+					for _, d := range dump.DBIs {
+						for _, e := range d.Entries {
+							if hh, err := model.ReadHeader(e.Val); err == nil && strings.HasPrefix(d.Name, "_sync") {
+								fmt.Printf("TRACE   %s/%x ts=%d fl=%d val=%q\n", d.Name, e.Key, hh.TS, hh.Flags, hh.AppVal)
+							}
+						}
+					}
+				}
+			}
 			ownPhase = false // (the first load of a second life is the one of its own snapshot)
 			if !c.Native {
 				mir.Capture(nextNow(), 0) // LoadOnce captures application changes first (no-op if there are none)
 			}
 			if loading != nil {
-				addMerged(loading.ents)
+				addMerged(loading.model)
 				if !c.Native {
-					mergeIntoMirror(mir, loading.ents, c.Sweeper)
+					mergeIntoMirror(mir, loading.model, c.Sweeper)
 				}
 				if lastAppBetween {
 					st.mergeAfter = true
@@ -678,6 +718,12 @@ func runLoopCase(c LoopCase, o *vcore.Obs) (*loopStats, error) {
 								close(release)
 								return st, fmt.Errorf("harness: %s: the application could not get the LMDB write lock within 20 s", where)
 							}
+							heldStart = time.Now()
+							heldSeq = nowSeq
+							heldKeys = map[string]bool{}
+							for _, ch := range changes {
+								heldKeys[fleetDBIs[ch.DBI%len(fleetDBIs)]+"/"+string(fleetKeys[ch.Key%len(fleetKeys)])] = true
+							}
 							go func() { time.Sleep(2 * time.Millisecond); close(release) }()
 							heldDone = done
 							st.held++
@@ -718,7 +764,7 @@ func runLoopCase(c LoopCase, o *vcore.Obs) (*loopStats, error) {
 						if !waitDl(dlBase + peerSeq) {
 							return st, fmt.Errorf("%s: the peer snapshots published so far were not all downloaded within 20 s\n%s", where, goroutinesOf("lightningstream/syncer/receiver"))
 						}
-						pending = putPeer(a.Peer)
+						pending = putPeer(a.Peer, a.BetweenHeld)
 						okDl := waitDl(dlBase + peerSeq)
 						if !okDl {
 							return st, fmt.Errorf("%s: peer snapshot %s was not downloaded within 20 s\n%s", where, pending.name, goroutinesOf("lightningstream/syncer/receiver"))
@@ -791,7 +837,7 @@ func runLoopCase(c LoopCase, o *vcore.Obs) (*loopStats, error) {
 			parts := strings.SplitN(id, "/", 2)
 			dbi, k := parts[0], parts[1]
 			md := mir.DBIs[dbi]
-			if sv, ok := md.Shadow[k]; ok && sv.TS >= 1_000_000_000_000_000_000 && sv.TS < 2_000_000_000_000_000_000 {
+			if sv, ok := md.Shadow[k]; ok && sv.TS >= 1_000_000_000_000_000_000 && (sv.TS < 2_000_000_000_000_000_000 || sv.TS%2 == 1) {
 				// the key currently holds a merged remote version that won against the application's
 				// write: the own snapshot may still carry the application's version (remote data is not
 				// re-published by design)
@@ -895,6 +941,7 @@ func classifyLoop(c LoopCase, st *loopStats, o *vcore.Obs) {
 	o.ClassIf(st.lsEmptyApp > 0, "app-commit-after-empty-ls-txn")
 	o.ClassIf(st.fallbacks > 0, "trigger-point-did-not-occur-fired-at-next-yield")
 	o.ClassIf(st.held > 0, "app-txn-held-the-write-lock-while-the-loop-ran-on")
+	o.ClassIf(st.betweenHeld > 0, "peer-version-stamped-between-lock-wait-and-commit-of-the-held-txn")
 	o.ClassIf(st.txnIDChecked > 0, "header-txn-id-of-ls-written-entries-checked")
 }
 
@@ -981,6 +1028,7 @@ func genLoopCase(t *rapid.T) LoopCase {
 			a.Held = rapid.IntRange(0, 2).Draw(t, "held") == 0
 		case "deliver":
 			a.Peer = genSPeer(t, &c, nkeys)
+			a.BetweenHeld = !c.Native && rapid.IntRange(0, 2).Draw(t, "between_held") == 0
 		case "storefault":
 			a.N = rapid.IntRange(1, 3).Draw(t, "nfail")
 		}
@@ -1061,9 +1109,17 @@ func (e enumLoop) toCase() LoopCase {
 		// markers far older than the retention, for keys the application holds newer versions of
 		late = append(late, SPeer{DBI: 0, Key: 0, TS: peerTS(5), Del: true}, SPeer{DBI: 0, Key: 3, TS: peerTS(5), Del: true}, SPeer{DBI: 1, Key: 0, TS: peerTS(5), Del: true})
 	}
+	lateAct := SAct{Kind: "deliver", At: "sync.before-sleep", Peer: late}
+	if e.Held && !e.Native {
+		// ... and versions of the keys the held transaction wrote, stamped between its start and its commit
+		for _, x := range ch {
+			lateAct.Peer = append(lateAct.Peer, SPeer{DBI: x.DBI, Key: x.Key, TS: peerTS(30), Val: model.Bytes("between")})
+		}
+		lateAct.BetweenHeld = true
+	}
 	c.Plan = append(c.Plan,
 		SAct{Kind: "app", At: e.Point, Changes: ch, Held: e.Held},
-		SAct{Kind: "deliver", At: "sync.before-sleep", Peer: late})
+		lateAct)
 	return c
 }
 
@@ -1169,8 +1225,9 @@ func mergeIntoMirror(mir *model.Mirror, ents []SPeer, sweeper bool) {
 			continue
 		}
 		dup[dbi+"/"+string(k)] = true
-		if sweeper && e.Del {
+		if sweeper && e.Del && e.TS < 2_000_000_000_000_000_000 {
 			// stale marker (see addMerged): not created where the shadow DBI has no entry for the key
+			// (entries stamped "between" a held transaction carry the current time: not stale)
 			if d := mir.DBIs[dbi]; d == nil {
 				continue
 			} else if _, has := d.Shadow[string(k)]; !has {
